@@ -61,6 +61,7 @@ func main() {
 	faults := flag.Float64("faults", 0, "probability of an injected store failure per batch")
 	crash := flag.Float64("crash", 0, "probability of a crash per step")
 	hostile := flag.Bool("hostile", false, "use ids containing ':'")
+	busy := flag.Float64("busy", 0, "probability that a batch's COMMIT finds the database locked by another connection")
 	routeerr := flag.Float64("routeerr", 0, "probability of an injected router failure")
 	converge := flag.Bool("converge", false, "after the clients stop, run the background coroutines for the bounded number of cycles and log the result (C11)")
 	tiny := flag.Bool("tiny", false, "kernel configuration at the bottom of the documented ranges (pool, queues, batches of 1..)")
@@ -119,7 +120,7 @@ func main() {
 		}
 		prof := profile{
 			Weights: weights(*focus), PFailPre: *faults / 2, PFailPost: *faults / 2, PCrash: *crash,
-			PRouteErr: *routeerr, PSendOk: 0.6, PSendErr: 0.15, PDelay: []float64{0, 0.3, 0.6}[r.Intn(3)], MaxBatch: one(1, 3),
+			PBusy: *busy, PSendFull: 0.1, PRouteErr: *routeerr, PSendOk: 0.6, PSendErr: 0.15, PDelay: []float64{0, 0.3, 0.6}[r.Intn(3)], MaxBatch: one(1, 3),
 			Promises: map[bool]int{true: one(4, 7), false: one(2, 3)}[*focus == "search"], HostileIds: *hostile,
 		}
 		d := &driver{r: r, p: prof, converge: *converge}
